@@ -74,7 +74,7 @@ def parse_kani(out):
     elif "VERIFICATION:- FAILED" in out:
         status = "FAILURE"
     failed = []
-    for m in re.finditer(r"Check \d+: (\S+)\n\s+- Status: (FAILURE|UNDETERMINED|ERROR)\n\s+- Description: \"(.*?)\"\n\s+- Location: (.*)", out):
+    for m in re.finditer(r"Check \d+: (.+)\n\s+- Status: (FAILURE|UNDETERMINED|ERROR)\n\s+- Description: \"(.*?)\"\n\s+- Location: (.*)", out):
         failed.append({"check": m.group(1), "status": m.group(2), "description": m.group(3), "location": m.group(4).strip()[:200]})
     # terse "Failed Checks:" lines
     for m in re.finditer(r"^Failed Checks: (.*)$", out, re.M):
